@@ -544,6 +544,18 @@ def gen_sampling(rng, n, tier):
     for _ in range(max(2, n // 4)):
         L.append("g1_rand %s" % bytes(rng.getrandbits(8) for _ in range(49 * 8)).hex())
         L.append("g2_rand %s" % bytes(rng.getrandbits(8) for _ in range(97 * 8)).hex())
+    # a draw whose x-coordinate belongs to a curve point of order dividing the cofactor (T = r*P): cofactor clearing gives the
+    # identity and the sampler must retry with the rest of the stream
+    import pyref as _pr
+    for sign in (0, 1):
+        T = None
+        while T is None: T = E1.mul(R, E1.rand_curve_point(rng))
+        st = _pr.montq(T[0]).to_bytes(48, "little") + bytes([sign])
+        L.append("g1_rand %s%s" % (st.hex(), bytes(rng.getrandbits(8) for _ in range(49 * 8)).hex()))
+        T = None
+        while T is None: T = E2.mul(R, E2.rand_curve_point(rng))
+        st = _pr.montq(T[0][0]).to_bytes(48, "little") + _pr.montq(T[0][1]).to_bytes(48, "little") + bytes([sign])
+        L.append("g2_rand %s%s" % (st.hex(), bytes(rng.getrandbits(8) for _ in range(97 * 8)).hex()))
     # forced rejection of the field element (>= q) before an acceptable draw
     bad = (rng.randrange(Q, 1 << 381)).to_bytes(48, "little").hex()
     L.append("g1_rand %s%s" % (bad, bytes(rng.getrandbits(8) for _ in range(49 * 8)).hex()))
@@ -694,6 +706,25 @@ def gen_wkdibe(rng, n, tier):
     stepw = [(0, vals[0], False), (1, 0, True), (3, vals[3], False)]
     for op in ("wk_qualify", "wk_ndqualify"):
         kk = S.key(op, p0, kp, stepw, random=(op == "wk_qualify")); keys[kk] = "xhfx"[:l]
+    # omit-all-unless-present in a qualification step: unmentioned free slots BELOW a newly fixed slot (the slot cursor must
+    # still advance past them), through both qualification paths and as the second step of a history; each resulting key
+    # is used at once (decrypt of a ciphertext for its fixed pattern, and the master key)
+    witness = []
+    kfree = S.key("wk_keygen", p0, m0, []); keys[kfree] = "f" * l
+    for (par, ppat, stp) in ((kp, "x" + "f" * (l - 1), [(0, vals[0], False), (l - 1, vals[l - 1], False)]),
+                             (kfree, "f" * l, [(1, vals[1], False), (l - 1, vals[l - 1], False)]),
+                             (kfree, "f" * l, [(l - 1, vals[l - 1], False)]),
+                             (kfree, "f" * l, [(1, 0, True), (2, vals[2], False)])):
+        for op in ("wk_qualify", "wk_ndqualify"):
+            kk = S.key(op, p0, par, stp, omitAll=True, random=(op == "wk_qualify"))
+            cp = "".join(("x" if any(a[0] == i and not a[2] for a in stp) else "h") if ppat[i] == "f" else ppat[i] for i in range(l))
+            keys[kk] = cp; witness.append((kk, cp))
+    k1 = S.key("wk_qualify", p0, kfree, [(0, vals[0], False)]); keys[k1] = "x" + "f" * (l - 1)
+    k2 = S.key("wk_qualify", p0, k1, [(0, vals[0], False), (1, vals[1], False), (l - 1, vals[l - 1], False)], omitAll=True)
+    cp = "xx" + "h" * (l - 3) + "x"; keys[k2] = cp; witness.append((k2, cp))
+    for (kk, cp) in witness:
+        fx = [(i, vals[i], False) for i, ch in enumerate(cp) if ch == "x"]
+        ctw = S.encrypt(p0, fx); S.decrypt(ctw, kk); S.decryptm(ctw, m0)
     # encrypt / decrypt: matching, equal mod r, mismatching, master
     klist = list(keys.items()); rng.shuffle(klist)
     for (k, pat) in klist[: (8 if tier != "thorough" else 40)]:
@@ -764,6 +795,20 @@ def gen_wkdibe(rng, n, tier):
         S.verify(p0, other, sg, msg)
         for which in ("a0", "a1"): S.verify(p0, ext, S.sigmod(sg, which), msg)
         rp = S.pre(p0, ext); sg2 = S.sign(p0, k, ext, msg, pre=rp); S.verify(p0, None, sg2, msg, pre=rp); S.verify(p0, ext, sg2, msg)
+        # lists whose entries carry the omit-from-keys flag: the flag shapes keys only; sign/verify/precompute/encrypt must
+        # still bind every (slot, id) pair of the list
+        if ext:
+            j = rng.randrange(len(ext))
+            flagged = [(i, v, (t == j) or h) for t, (i, v, h) in enumerate(ext)]
+            sf = S.sign(p0, k, flagged, msg); S.verify(p0, flagged, sf, msg); S.verify(p0, ext, sf, msg)
+            dropped = [a for t, a in enumerate(ext) if t != j]
+            S.verify(p0, dropped, sf, msg)
+            S.verify(p0, flagged, sg, msg)
+            rf = S.pre(p0, flagged); S.adjustpre(rf, p0, flagged, ext); S.adjustpre(rf, p0, flagged, dropped)
+            ctf = S.encrypt(p0, flagged); S.decryptm(ctf, m0)
+        extra_flag = sorted(ext + [(i, 11, True) for i in range(l) if all(a[0] != i for a in ext)][:1])
+        if len(extra_flag) > len(ext):
+            S.verify(p0, extra_flag, sg, msg)
         hidden = [i for i, ch in enumerate(pat) if ch == "h"]
         if hidden:
             bad = sorted(fixed + [(hidden[0], 9, False)])
